@@ -171,6 +171,48 @@ func genKeys(t *rapid.T, cfg Config, minKeys, maxKeys int) []KeySpec {
 	return keys
 }
 
+// extendKeys adds keys to a pool until it has n of them. The new digests share
+// the bucket bytes of the first key, are longer than every digest of the pool
+// and are checked against all of them, so the pool stays duplicate-free and
+// prefix-free.
+func extendKeys(keys []KeySpec, n int) []KeySpec {
+	maxLen := 0
+	for _, k := range keys {
+		if len(k.Digest) > maxLen {
+			maxLen = len(k.Digest)
+		}
+	}
+	related := func(a, b []byte) bool {
+		m := len(a)
+		if len(b) < m {
+			m = len(b)
+		}
+		for i := 0; i < m; i++ {
+			if a[i] != b[i] {
+				return false
+			}
+		}
+		return true // equal, or one is a prefix of the other
+	}
+	for salt := 0; len(keys) < n && salt < 4096; salt++ {
+		d := append([]byte{}, keys[0].Digest[:4]...)
+		d = append(d, 0xee, byte(salt), byte(salt>>8), 0xee)
+		for len(d) < maxLen+1 {
+			d = append(d, 0xe0|byte(len(d)&0x0f))
+		}
+		ok := true
+		for _, k := range keys {
+			if related(k.Digest, d) {
+				ok = false
+			}
+		}
+		if ok {
+			keys = append(keys, KeySpec{Digest: d, Code: 0x00, Codec: keys[0].Codec})
+		}
+	}
+	return keys
+}
+
 // opMix is the per-case operation mix.
 type opMix struct {
 	kinds   []string
